@@ -261,6 +261,11 @@ func genResources(r *vf.RNG) []*resource.Resource {
 			out[i] = resource.Empty()
 			continue
 		}
+		if i == 0 && r.Chance(1, 5) {
+			// a resource that is nothing but a schema URL
+			out[i] = resource.NewWithAttributes("https://opentelemetry.io/schemas/1.26.0")
+			continue
+		}
 		out[i] = resource.NewWithAttributes(vf.Pick(r, []string{"", "https://opentelemetry.io/schemas/1.26.0"}), attrs...)
 	}
 	return out
